@@ -155,7 +155,7 @@ impl Scenario for Handover {
         let v = view(&vm, mc.m).unwrap();
         let r = ni_commit(&vm, mc.w, mc.m, &[1], (v.dl_info.index + 2) % 4, vm.epoch() + 100);
         assert!(r.ok(), "SETUP-FAILED NI commit: {}", r.tree());
-        let e_exp = vm.epoch() + 5;
+        let e_exp = vm.epoch() + 4; // tick 3 = last epoch of the term, tick 3 + tick 1 = exactly the expiration, tick 3 + tick 3 = past it
         let h = Hm {
             owner: mc.o,
             pending_owner: None,
@@ -473,7 +473,7 @@ pub fn run(tier: &str) -> ! {
     let mut run = mcx::evidence::Run::new("C13", tier, "model_checking");
     run.assumptions = vec![
         "SMALL policy (worker key change delay = 3 epochs); mcvm stands in for the FVM".into(),
-        "beneficiary terms from {quota 0/5 atto, expiration 0 / base+5}; withdrawals of 3 atto".into(),
+        "beneficiary terms from {quota 0/5 atto, expiration 0 / base+4}; withdrawals of 3 atto".into(),
     ];
     run.add(mcx::explore(&scn, &b));
     run.finish()
